@@ -1662,7 +1662,11 @@ impl FixWord {
 
         // TeX.2021.571 (store_scaled)
         let [a, b, c, d] = self.0.to_be_bytes();
-        assert!(a == 0 || a == 255);
+        if a != 0 && a != 255 {
+            // |self| >= 16: not representable (TeX.2021.571 rejects the font; PLtoTF's out_scaled
+            // replaces the value with zero).
+            return common::Scaled::ZERO;
+        }
         let sw = (((z * (d as i32)) / 0o400 + (z * (c as i32))) / 0o400 + z * (b as i32)) / beta;
         if a == 255 {
             // In this case self < 0.
